@@ -757,13 +757,18 @@ impl<E: Effect> Executor<E> {
         // Inject heap data into the result value
         let injected_result = self.inject_heap_data(result, &heap)?;
 
-        // Store the result in the process's awaiting map (retaining as it enters storage).
+        // Store the result in the process's awaiting map (retaining as it enters storage, and
+        // releasing a result already stored for the same target).
         if self.get_process(awaiter).is_some() {
             self.retain(&injected_result);
-            self.get_process_mut(awaiter)
+            let previous = self
+                .get_process_mut(awaiter)
                 .unwrap()
                 .awaiting
                 .insert(awaited, Some(injected_result));
+            if let Some(Some(previous)) = previous {
+                self.release(&previous);
+            }
         }
 
         // Re-queue awaiter to retry its Select instruction
@@ -2231,8 +2236,15 @@ impl<E: Effect> Executor<E> {
         });
         // If we found PIDs, register awaits before processing sources
         if !pid_targets.is_empty() {
+            // A result still held from an earlier await of the same target leaves storage here.
+            let mut displaced = Vec::new();
             for target in &pid_targets {
-                process.awaiting.insert(*target, None);
+                if let Some(Some(previous)) = process.awaiting.insert(*target, None) {
+                    displaced.push(previous);
+                }
+            }
+            for previous in &displaced {
+                self.release(previous);
             }
 
             self.mark_selecting(pid);
@@ -2606,9 +2618,15 @@ impl<E: Effect> Executor<E> {
         });
         // The message clone enters the select_state.receiving slot.
         self.retain(&message);
+        let mut displaced = None;
         if let Some(state) = &mut proc.select_state {
-            state.receiving = Some((receive_idx, message.clone()));
+            // A message still held for another receive source (whose filter was running when
+            // this higher-priority source found a message) leaves the slot here.
+            displaced = state.receiving.replace((receive_idx, message.clone()));
             state.cursors[receive_idx] = msg_idx;
+        }
+        if let Some((_, previous)) = &displaced {
+            self.release(previous);
         }
 
         // The message (parameter) and source (the receive function) enter the call's stack frame.
